@@ -52,11 +52,14 @@ META = dict(
               "x 3 densities x "
               "(5 grid energies + 2 out of range + edge-bracketing nodes of the atoms present); reuse: 6 compounds "
               "(isotope, isotope ion, single atom, fractional count, triple) x 10512 histories (48 first calls x 72 "
-              "second calls x the caller updates that concern the second call), 72 calls alone",
+              "second calls x the caller updates that concern the second call), 72 calls alone; f0 first-call histories: "
+              "every one of the 211 entries x 5 ways of asking as the first form-factor call of a fresh fork (then repeated), "
+              "and all ordered pairs of calls over 10 entries x 3 ways",
         thorough="same tables with 5 points per segment (0.01, 0.25, 0.5, 0.75, 0.99); same f0 sweep; compounds: "
                  "singles x 3 counts, pairs x 4 count patterns, all triples over the 17-atom alphabet x 2 count "
                  "patterns; x 5 densities x (24 grid energies + 2 out of range + edge nodes); reuse: the same 10512 "
-                 "histories for all singles and pairs over the 7-atom sub-alphabet and the quick compounds (32)"),
+                 "histories for all singles and pairs over the 7-atom sub-alphabet and the quick compounds (32); f0 first-call "
+                 "histories as in quick, pairs over 10 entries x all 5 ways"),
     assumptions=[
         "the .nff and f0_WaasKirf.dat texts are the source of truth (loader errors are detected, not data errors)",
         "physical constants and neutral atom masses / element densities are read from the library (C06)",
